@@ -722,10 +722,15 @@ def coq_pairs_for_run(run, conj_expected, k):
     descr.append(("model: output packages", run.label))
     for p in pkgs:
         mod = run.reflect["modules"].get(p, {"import_error": "module missing"})
-        real = cv_module(p, mod)
-        pairs.append((f"cv_res_module {s(p)} M{k}", real))
+        if "import_error" in mod:
+            pairs.append((f"cv_res_module {s(p)} M{k}", ce("EOther")))
+            descr.append(("model class table vs imported package", run.label, p))
+            continue
+        # classes as a set (definition order inside a module is not part of the property), fields in order
+        real = g_list(cv_class(c) for c in mod["classes"])
+        pairs.append((f"cbool (res_module_matches {s(p)} M{k} {real})", cbool(True)))
         descr.append(("model class table vs imported package", run.label, p))
-        pairs.append((f"cv_opt_module {s(p)} S{k}", real))
+        pairs.append((f"cbool (opt_module_matches {s(p)} S{k} {real})", cbool(True)))
         descr.append(("specification class_table_of vs imported package", run.label, p))
     pairs.append((f"cbool (protoc_wf D{k})", cbool(True)))
     descr.append(("protoc_wf on protoc's output", run.label))
@@ -758,7 +763,7 @@ def stage_functions(ctx):
     # ---- parse_source_type_name
     segs = ["a", "b", "foo", "Foo", "Bar", "fooBar", "x1", "A", "google", "protobuf", "v1", "Http", "URL", "lower_case", "_", "M_"]
     names = set()
-    for _ in range(700 if not ctx.thorough else 4000):
+    for _ in range(400 if not ctx.thorough else 4000):
         n = rng.randint(1, 5)
         t = ".".join(rng.choice(segs) for _ in range(n))
         r = rng.random()
@@ -803,7 +808,7 @@ def stage_functions(ctx):
     # ---- is_map / is_oneof on hand-built descriptors
     fnames = ["foo", "f_oo", "Foo", "foo_bar", "fooBar", "FOO", "_foo", "foo_", "a", "entry", "x1", "f__oo"]
     tnames = ["FooEntry", "fooentry", "FOoEntry", "FooBarEntry", "Foo_Entry", "Entry", "AEntry", "Other", "EntryEntry", "X1Entry", ""]
-    for _ in range(1200 if not ctx.thorough else 8000):
+    for _ in range(700 if not ctx.thorough else 8000):
         fn = rng.choice(fnames)
         tn = rng.choice([".p.M.", ".", ".q.", ""]) + rng.choice(tnames)
         typ = rng.choice([11, 11, 11, 14, 5, 9])
@@ -885,7 +890,32 @@ def shape_of(c):
                                     for f in c["fields"])))
 
 
-def process_run(ctx, run, expect_clean, corr=True):
+def shrink_to_schema(ctx, run, diffs, schemas):
+    """a failure inside a batch: re-run the one generated schema it belongs to, alone, so that the replay is small"""
+    if not schemas:
+        return None
+    for d in diffs[:3]:
+        m = re.search(r"\bs(\d+)[./\']", d)
+        if not m:
+            continue
+        idx = int(m.group(1))
+        cand = [sc for sc in schemas if any(fn.startswith(f"s{idx}/") for fn in sc.files)]
+        if not cand:
+            continue
+        r = Run("shrunk-" + cand[0].label, cand[0].files)
+        safe_protoc(ctx, r)
+        if r.rc != 0 or r.error or r.reflect is None:
+            return r, [f"plugin failed / package not inspectable: {(r.out or r.error or '')[-300:]}"]
+        try:
+            dd = oracle_compare(r, oracle_expected(r.fds))
+        except Exception as e:  # noqa
+            dd = [f"oracle raised {e!r}"]
+        if dd:
+            return r, dd
+    return None
+
+
+def process_run(ctx, run, expect_clean, corr=True, schemas=None):
     """oracle + (optionally) model/spec correspondence for one completed protoc run. Returns list of coq jobs."""
     jobs = []
     if run.rc == "protoc-rejected":
@@ -929,9 +959,16 @@ def process_run(ctx, run, expect_clean, corr=True):
             elif len(c["members"]) >= 2:
                 ctx.seen_nontrivial(shape_of(c))
     if diffs:
-        ctx.fail("oracle", "generated package does not implement the schema: " + diffs[0][:300], cls=cls,
-                 input={"label": run.label, "files": run.files}, all_differences=diffs[:20],
-                 hazard_classes=sorted(hz), plugin_output=run.out[-300:])
+        small = shrink_to_schema(ctx, run, diffs, schemas)
+        if small is not None:
+            r2, d2 = small
+            ctx.fail("oracle", "generated package does not implement the schema: " + d2[0][:300], cls=cls,
+                     input={"label": r2.label, "files": r2.files, "found_in": run.label}, all_differences=d2[:20],
+                     hazard_classes=sorted(hz), plugin_output=(r2.out or "")[-300:])
+        else:
+            ctx.fail("oracle", "generated package does not implement the schema: " + diffs[0][:300], cls=cls,
+                     input={"label": run.label, "files": run.files}, all_differences=diffs[:20],
+                     hazard_classes=sorted(hz), plugin_output=run.out[-300:])
     if corr:
         jobs.append((run, conj))
     return jobs
@@ -1002,8 +1039,12 @@ def run_coq_jobs(ctx, jobs):
                     continue
                 if known and pkg is not None and "import_error" in run.reflect["modules"].get(pkg, {}):
                     continue          # Python-level breakage of a known class: nothing to compare the model with
+                shown = pairs[i][0]
+                m_ = re.match(r"cbool \((res|opt)_module_matches (\[.*?\]) ([MS]\d+) ", shown)
+                if m_:
+                    shown = f"cv_{m_.group(1)}_module {m_.group(2)} {m_.group(3)}"
                 ctx.fail("corr", f"disagreement: {what}", input={"label": run.label, "case": list(descr[i]), "files": run.files},
-                         expected_model=pairs[i][0], observed_impl=pairs[i][1][:3000],
+                         expected_model=shown, observed_impl=json.dumps(run.reflect["modules"].get(pkg))[:3000] if pkg is not None else pairs[i][1][:3000],
                          theorem_or_correspondence=("T3 Spec/Descriptor.v class_table_of <-> generated package" if spec_side
                                                     else "T2 Model/Plugin.v <-> plugin output"))
 
@@ -1053,12 +1094,21 @@ def run(ctx):
     t0 = time.time()
     stage_bundled(ctx)          # before stage A: monkey_patch_oneof_index() changes the live metadata it reads
     t1 = time.time()
-    stage_functions(ctx)
+    coq_ok = ctx.build_ok is not False
+    if coq_ok:
+        try:
+            stage_functions(ctx)
+        except RuntimeError as e:
+            coq_ok = False
+            ctx.fail("corr", "the model cannot be evaluated against this tree", observed=str(e)[-1500:], no_input=True,
+                     theorem_or_correspondence="T2 function-level correspondence (model evaluation failed)")
+    else:
+        ctx.notes.append("Coq build failed: the model correspondence is skipped, the oracle still runs")
     t2 = time.time()
     # ---------------------------------------------------------------- B: generated schemas, batched
     gen = G.Gen(rng, api_names(), depth=3 if not ctx.thorough else 5)
     schemas = G.systematic(0)
-    nrandom = 32 if not ctx.thorough else 600
+    nrandom = 24 if not ctx.thorough else 600
     for i in range(nrandom):
         schemas.append(gen.schema(len(schemas)))
     batch_size = 8 if not ctx.thorough else 12
@@ -1101,7 +1151,7 @@ def run(ctx):
     for r in saved:
         jobs += process_run(ctx, r, expect_clean=False)
     for r in batches + retry:
-        jobs += process_run(ctx, r, expect_clean=True)
+        jobs += process_run(ctx, r, expect_clean=True, schemas=schemas)
     ctx.count("generated_schemas", len(schemas))
     for r in corpus:
         jobs += process_run(ctx, r, expect_clean=False)
@@ -1113,7 +1163,8 @@ def run(ctx):
     ctx.count("witness_schemas", len(wit))
     ctx.count("regression_schemas", len(reg))
     t4 = time.time()
-    run_coq_jobs(ctx, jobs)
+    if coq_ok:
+        run_coq_jobs(ctx, jobs)
     t5 = time.time()
     ctx.cov["stage_seconds"] = {"bundled": round(t1 - t0, 1), "functions": round(t2 - t1, 1), "protoc+plugin+import": round(t3 - t2, 1),
                                 "oracle": round(t4 - t3, 1), "coq model+spec": round(t5 - t4, 1)}
